@@ -451,6 +451,7 @@ Lemma publish_hist_ext : forall cfg lookup now b pg pub req opts topic args kw b
 Proof.
   intros cfg lookup now b pg pub req opts topic args kw b' pg' o W. unfold publish.
   destruct (negb (valid_uri (c_strict cfg) "" topic)); [intros H; inversion H; subst; now apply hist_ext_refl|].
+  destruct (publish_aborts cfg pub opts topic); [intros H; inversion H; subst; now apply hist_ext_refl|].
   destruct (opt_bool opts "disclose_me" && negb (c_disclose cfg)); [intros H; inversion H; subst; now apply hist_ext_refl|].
   match goal with |- context [fold_left ?f ?l (b, [])] =>
     pose proof (pub_fold_hist_ext lookup now pub (pg + 1) opts topic args kw
